@@ -2,6 +2,7 @@
 from ..paths import PathEnumerator
 from ..guards import fv
 from ..terms import TermBuilder, fmt, mk, const, subterms
+from ..terms import callee_is as _nm
 from ..guards import atomic_facts
 from .common import SELF, self_field, loop_exits_only_on_exhaustion, all_writes
 
@@ -291,7 +292,7 @@ def kick_loop(ctx, ii):
         probs.append("slot index %s does not depend on exactly one carried bucket index" % fmt(x))
     else:
         i_lv = i_lvs[0]
-        es = [s for s in subterms(x) if s[0] == "call" and s[1].endswith("gen_range")]
+        es = [s for s in subterms(x) if s[0] == "call" and _nm(s[1], "gen_range")]
         ok_e = len(es) == 1 and es[0][2][1] == ("adt", "std::ops::Range", "Range", (("start", const(0)), ("end", bsz)))
         if not (ok_e and x == mk("Add", es[0], mk("Mul", bsz, i_lv))):
             probs.append("victim slot is %s, expected i*bucketsize + e with e drawn from 0..bucketsize (a slot of bucket i)" % fmt(x))
